@@ -204,7 +204,9 @@ func (c *RollingFileAppender) Append(e *Event) {
 // Write writes bytes to the current log file.
 func (c *RollingFileAppender) Write(b []byte) {
 	c.rotate()
+	verifPoint("roll.write.afterrotate")
 	if file := c.file.Load(); file != nil {
+		verifPoint("roll.write.loaded")
 		_, _ = file.Write(b)
 	}
 }
@@ -230,9 +232,11 @@ func (c *RollingFileAppender) rotate() {
 	if nowTime <= oldTime {
 		return
 	}
+	verifPoint("roll.rotate.checked")
 	if !c.currTime.CompareAndSwap(oldTime, nowTime) {
 		return
 	}
+	verifPoint("roll.rotate.cas")
 
 	// Close the previous rotation file
 	if file := c.oldFile.Swap(nil); file != nil {
@@ -240,6 +244,7 @@ func (c *RollingFileAppender) rotate() {
 		_ = file.Close()
 	}
 
+	verifPoint("roll.rotate.closedold")
 	filePath, file, err := c.createFile(c.Rotation.Format(now))
 	if err != nil {
 		err = errutil.Stack(err, "Failed to create log file %s", filePath)
@@ -247,11 +252,13 @@ func (c *RollingFileAppender) rotate() {
 		return
 	}
 
+	verifPoint("roll.rotate.created")
 	oldFile := c.file.Load()
 	c.oldFile.Store(oldFile)
 
 	c.file.Store(file)
 	c.currTime.Store(nowTime)
+	verifPoint("roll.rotate.swapped")
 
 	// Cleanup expired log files asynchronously
 	go c.clearExpiredFiles()
